@@ -502,7 +502,7 @@ class TermBuilder:
             new = self._binop(st.op, old, self.term(st.value, d), st)
             return new
         if isinstance(st, ast.FunctionDef):
-            body = [x for x in st.body if not (isinstance(x, ast.Expr) and isinstance(x.value, ast.Constant))]
+            body = effective_body(st.body)
             if len(body) == 1 and isinstance(body[0], ast.Return) and body[0].value is not None and not st.args.vararg and not st.args.kwarg:
                 # a closure with a single return is the same thing as a lambda
                 for sub in ast.walk(body[0].value):
@@ -926,7 +926,7 @@ class TermBuilder:
             ci = self.ana.prog.classes.get(ty[1])
             if ci and e.attr in ci.properties:
                 g = ci.properties[e.attr]
-                body = [s for s in g.node.body if not (isinstance(s, ast.Expr) and isinstance(s.value, ast.Constant))]
+                body = effective_body(g.node.body)
                 if len(body) == 1 and isinstance(body[0], ast.Return) and isinstance(body[0].value, ast.Attribute) \
                         and isinstance(body[0].value.value, ast.Name) and body[0].value.value.id == "self":
                     return Attr(base, e.attr)
@@ -939,7 +939,7 @@ class TermBuilder:
             if ci:
                 # private field behind a trivial getter: canonical public name
                 for pname, g in ci.properties.items():
-                    body = [s for s in g.node.body if not (isinstance(s, ast.Expr) and isinstance(s.value, ast.Constant))]
+                    body = effective_body(g.node.body)
                     if len(body) == 1 and isinstance(body[0], ast.Return) and isinstance(body[0].value, ast.Attribute) \
                             and body[0].value.attr == e.attr and pname != e.attr:
                         return Attr(base, pname)
@@ -1492,6 +1492,23 @@ def _root_term(t: T) -> T:
     while isinstance(t, (Attr, Idx)):
         t = t.base
     return t
+
+
+def effective_body(stmts):
+    """The statements that determine what a function computes: docstrings, `pass`, assertions and logging calls only observe
+    (an assertion can abort the call, it cannot change its value)."""
+    out = []
+    for st in stmts:
+        if isinstance(st, ast.Expr) and isinstance(st.value, ast.Constant):
+            continue
+        if isinstance(st, (ast.Pass, ast.Assert)):
+            continue
+        if isinstance(st, ast.Expr) and isinstance(st.value, ast.Call) and isinstance(st.value.func, ast.Attribute) \
+                and st.value.func.attr in ("debug", "info", "warning", "error", "critical", "exception", "log") \
+                and isinstance(st.value.func.value, (ast.Name, ast.Attribute)):
+            continue
+        out.append(st)
+    return out
 
 
 def _root_name(e) -> Optional[str]:
